@@ -266,7 +266,16 @@ class Gen:
                 continue
             text, _, varnames = smt.print_smt(at.out + at.axioms, with_refs=True)
             h = hashlib.sha1(_canon(text).encode()).hexdigest()[:12]
-            verdict, model, info = solver.check(text, varnames, fast_ms=FAST_MS, slow_s=self.slow_s)
+            # stage 0: the negated goal alone (no context, no axioms).  unsat there is unsat everywhere (monotonicity)
+            # and is what a plain polynomial identity gives in milliseconds
+            verdict = "unknown"
+            if len(at.out) > 1 or at.axioms:
+                text0 = smt.print_smt([at.out[-1]])
+                verdict, model, info = solver.check(text0, (), fast_ms=min(1500, FAST_MS), slow_s=0)
+                if verdict != "unsat":
+                    verdict = "unknown"
+            if verdict != "unsat":
+                verdict, model, info = solver.check(text, varnames, fast_ms=FAST_MS, slow_s=self.slow_s, tag="goal:" + name)
             dt = time.time() - t0
             rec = {"goal": name, "verdict": verdict, "trivial": False, "time_s": round(dt, 4), "solver": info["solver"],
                    "hash": h}
@@ -277,12 +286,14 @@ class Gen:
                 tw = _qeq(qa, Q(T.add(qb.n, qb.d), qb.d))
                 at2 = smt.Atomizer(ctx + [T.not_(tw)])
                 text2 = smt.print_smt(at2.out + at2.axioms)
-                v2, _, _ = solver.check(text2, (), fast_ms=FAST_MS, slow_s=min(20, self.slow_s))
+                v2, _, _ = solver.check(text2, (), fast_ms=FAST_MS, slow_s=min(20, self.slow_s), tag="twin:" + name)
                 self.twins.append({"goal": name + " (rhs+1)", "verdict": v2})
             if verdict == "sat":
                 rec["finding"] = self._counterexample(label, name, gt, pair, at, model, ctx)
                 if rec["finding"].get("reproduced"):
                     self.stop_labels.add(label)
+                elif rec["finding"].get("within_tolerance"):
+                    rec["verdict"] = "tolerance"
             self.results.append(rec)
 
     def _default_env(self, env):
@@ -318,17 +329,18 @@ class Gen:
                 den = T.mul(qa.d, qb.d)
                 eps = T.const(Fraction(1, 1000))
                 big = T.or_(T.lt(T.mul(eps, den, den), T.mul(diff, den)), T.lt(T.mul(diff, den), T.neg(T.mul(eps, den, den))))
-                bounds = []
-                for nm in self.declared:
-                    v = T.var(nm)
-                    bounds += [T.le(T.const(-4), v), T.le(v, T.const(4))]
-                at2 = smt.Atomizer(ctx + bounds + [big])
+                at2 = smt.Atomizer(ctx + [big])
                 text, _, vn = smt.print_smt(at2.out + at2.axioms, with_refs=True)
                 v2, m2, _ = solver.check(text, vn, fast_ms=FAST_MS, slow_s=min(30, self.slow_s))
                 f["robust"] = v2
                 if v2 == "sat":
                     env = self._default_env(at2.recover(m2))
                     f["env"] = env
+                elif v2 == "unsat":
+                    # the two sides differ by less than 1e-3 for every input on this path: the exact identity fails
+                    # only inside a tolerance branch of the code (e.g. `abs(x) > 1e-13` taken literally)
+                    f["within_tolerance"] = True
+                    return f
         # replay on the unpatched code
         f.update(replay(self._hfn, self.params, env, label, name, self.tier))
         return f
@@ -470,7 +482,7 @@ def explore(hfn, params, modules, tier="quick", max_paths=2000, slow_s=60, valid
         if summary["assumptions_sat"] is None and not aborted:
             # vacuity (a): the assumptions of the first complete path are satisfiable
             at = smt.Atomizer(run.context_terms())
-            v, _, _ = solver.check(smt.print_smt(at.out + at.axioms), (), fast_ms=FAST_MS, slow_s=20)
+            v, _, _ = solver.check(smt.print_smt(at.out + at.axioms), (), fast_ms=FAST_MS, slow_s=20, tag="assumptions-sat")
             summary["assumptions_sat"] = v
     # ---------------- encoding validation: symbolic terms vs the untouched float code at random points
     rng = random.Random(seed * 7919 + 13)
@@ -563,7 +575,7 @@ _CTX = None
 def _run_job(i):
     job = _JOBS[i]
     ctx = _CTX
-    solver.STATS.update({"queries": 0, "fast": 0, "portfolio": 0, "time_s": 0.0, "by_solver": {}, "crosschecked": 0, "errors": 0})
+    solver.STATS.update({"queries": 0, "fast": 0, "portfolio": 0, "time_s": 0.0, "by_solver": {}, "crosschecked": 0, "errors": 0, "slow": []})
     t0 = time.time()
     try:
         mods = job.modules() if callable(job.modules) else job.modules
